@@ -14,6 +14,33 @@ var junkTokens = []string{"foo", "moves", "fen", "value", "name", "go", "positio
 // DamageLine applies one transport corruption (fault kind F7) to a command
 // line and returns the damaged line and the name of the corruption.
 func DamageLine(line string, rng *PRNG) (string, string) {
+	d, kind := damageLineOnce(line, rng)
+	if rng.Intn(100) < 15 {
+		// the spelling of keywords varies on top of the corruption (a
+		// sender with its own idea of upper and lower case)
+		tok := strings.Fields(d)
+		for i, t := range tok {
+			if len(t) == 0 || strings.Contains(t, "/") {
+				continue
+			}
+			switch rng.Intn(6) {
+			case 0:
+				tok[i] = strings.ToUpper(t[:1]) + t[1:]
+			case 1:
+				tok[i] = strings.ToUpper(t)
+			case 2:
+				k := rng.Intn(len(t))
+				tok[i] = t[:k] + strings.ToUpper(t[k:k+1]) + t[k+1:]
+			}
+		}
+		if len(tok) > 0 {
+			return strings.Join(tok, " "), kind + "+case"
+		}
+	}
+	return d, kind
+}
+
+func damageLineOnce(line string, rng *PRNG) (string, string) {
 	tok := strings.Fields(line)
 	if len(tok) == 0 {
 		return "   ", "blank"
@@ -337,7 +364,9 @@ func GenC16Session(seed uint64) *Scenario {
 			// a game in progress: the same start with the move list extended by a few moves
 			q := lastRoot.Clone()
 			ext := Playout(q, rng.Range(1, 4), rng)
-			if len(ext) > 0 && len(q.LegalMoves()) > 0 {
+			// (the engine documents a capacity of 512 plies per game: a longer
+			// move list is not a valid command any more)
+			if len(ext) > 0 && len(q.LegalMoves()) > 0 && len(strings.Fields(lastPos))+len(ext) < 500 {
 				if strings.Contains(lastPos, " moves ") {
 					posCmd = lastPos + " " + strings.Join(ext, " ")
 				} else {
